@@ -193,8 +193,10 @@ class RawStructDef(TypeDef, ParsableDef):
                     raise GuppyError(err)
 
         # Ensure that functions don't override struct fields
-        if overridden := used_field_names.intersection(used_func_names.keys()):
-            x = overridden.pop()
+        # (report the first one in definition order; a set of names has no stable
+        # iteration order across interpreter runs)
+        if overridden := [x for x in used_func_names if x in used_field_names]:
+            x = overridden[0]
             raise GuppyError(DuplicateFieldError(used_func_names[x], self.name, x))
 
         return ParsedStructDef(self.id, self.name, cls_def, params, fields)
